@@ -377,6 +377,22 @@ func (x *Exec) model(fr *Frame, st *State, fn *ssa.Function, args []Val, site ss
 		tid := BVInt(int64(x.C.TypeID(types.Universe.Lookup("error").Type())), 32)
 		errv := Ite(full, x.C.zeroOfSort(SIface, nil), App(SIface, "mk-iface", tid, eid))
 		return []Val{bvTV(n, types.Typ[types.Int]), bvTV(x.C.Name("rferr", errv), fn.Signature.Results().At(1).Type())}, true, nil
+	case modPath + "/internal/utilities/hash.KeccakHash", modPath + "/internal/utilities/hash.Blake2bHash":
+		// cryptographic hashes: uninterpreted functions of the input octets (same storage, offset and length give
+		// the same digest; nothing else is known about the value), no effect on memory
+		x.trust("hash.KeccakHash / hash.Blake2bHash are pure functions of their input octets (uninterpreted)")
+		uf := "uf_keccak"
+		if strings.HasSuffix(name, "Blake2bHash") {
+			uf = "uf_blake2b"
+		}
+		rowS := SArr(SIdx, SBV(8))
+		x.C.DeclOnce(fmt.Sprintf("(declare-fun %s (%s (_ BitVec 64) (_ BitVec 64)) %s)", uf, rowS, rowS))
+		in := T(0)
+		r, hs := x.elemRegion(types.Typ[types.Uint8])
+		h := x.heapGet(st, r, hs)
+		row := x.C.Name("hashin", Select(h, SlBase(in)))
+		dig := x.C.Name("digest", App(rowS, uf, row, SlOff(in), SlLen(in)))
+		return []Val{x.fromTerm(dig, fn.Signature.Results().At(0).Type())}, true, nil
 	case "math.Sqrt":
 		x.C.Note("math.Sqrt is an uninterpreted function")
 		return []Val{bvTV(App(SF64, "f64_sqrt", T(0)), types.Typ[types.Float64])}, true, nil
